@@ -6,8 +6,10 @@
 (* TaskStates, Noise) and checks property C12 on what was really forwarded.*)
 (*                                                                         *)
 (* The monitor is total.  Property clauses are "C12.<Clause>"; they are    *)
-(* evaluated on the logged forwards / roles / states and on ghost          *)
-(* variables, never on the code's pid list or wait pool.  In addition each *)
+(* evaluated on the logged forwards and on ghost variables: the role as    *)
+(* commanded (grole), the furthest pilot state ever notified or added      *)
+(* (gst), the ghost usage (gset) - never on the code's pilot records, pid  *)
+(* list or wait pool.  In addition each                                    *)
 (* callback is compared with the callback operators of the design model    *)
 (* (TmgrOps) for every setting of the known deviations; a mismatch is       *)
 (* reported as "M.Conformance" (model fidelity, not a property clause).    *)
@@ -20,27 +22,29 @@ EXTENDS TmgrOps, TLC, Json, IOUtils
 Batch  == JsonDeserialize(IOEnv.TRACE_FILE)
 Traces == Batch.traces
 
-VARIABLES tid, l, cs, tst, bound, fwdCount, gset, errs, fin
+VARIABLES tid, l, cs, tst, bound, fwdCount, gset, grole, gst, errs, fin
 
-vars == <<tid, l, cs, tst, bound, fwdCount, gset, errs, fin>>
+vars == <<tid, l, cs, tst, bound, fwdCount, gset, grole, gst, errs, fin>>
 
 T      == Traces[tid]
 Ev     == T.events
 TS     == SeqSet(T.tasks)
 PS     == SeqSet(T.pilots)
 
-KK(dE, dR) == [policy |-> T.policy,
+KK(dE, dR, dF, dC) == [policy |-> T.policy,
                named  |-> [t \in TS |-> T.named[t]],
                cores  |-> [t \in TS |-> T.cores[t]],
                hwm    |-> [p \in PS |-> T.hwm[p]],
-               lo |-> T.lo, hi |-> T.hi, devEarly |-> dE, devRaise |-> dR]
-K == KK(FALSE, FALSE)
+               lo |-> T.lo, hi |-> T.hi, devEarly |-> dE, devRaise |-> dR,
+               devAddFresh |-> dF, devCtrRaise |-> dC]
+K == KK(FALSE, FALSE, FALSE, FALSE)
 
 ToCs(st) == [role  |-> [p \in PS |-> st.role[p]],
              pst   |-> [p \in PS |-> st.pst[p]],
              info  |-> [p \in PS |-> [used  |-> st.used[p],
                                       tasks |-> SeqSet(st.tasks[p]),
-                                      done  |-> SeqSet(st.done[p])]],
+                                      done  |-> SeqSet(st.done[p]),
+                                      init  |-> st.init[p]]],
              early |-> [p \in PS |-> st.early[p]],
              wait  |-> st.wait, pids |-> st.pids, idx |-> st.idx]
 
@@ -51,20 +55,21 @@ Init ==
   /\ tid \in 1 .. Len(Traces)
   /\ l = 1
   /\ cs = [role  |-> [p \in PS |-> "none"], pst |-> [p \in PS |-> "none"],
-           info  |-> [p \in PS |-> FreshInfo], early |-> [p \in PS |-> <<>>],
+           info  |-> [p \in PS |-> NoInfo], early |-> [p \in PS |-> <<>>],
            wait  |-> <<>>, pids |-> <<>>, idx |-> 0]
   /\ tst = [t \in TS |-> "new"]
   /\ bound = [t \in TS |-> "none"]
   /\ fwdCount = [t \in TS |-> 0]
   /\ gset = [p \in PS |-> {}]
+  /\ grole = [p \in PS |-> "none"] /\ gst = [p \in PS |-> "none"]
   /\ errs = {} /\ fin = FALSE
 
 \* what the design model expects of this callback, for one setting of the deviations
-Expect(e, dE, dR) ==
-  LET k == KK(dE, dR) IN
+Expect(e, dE, dR, dF, dC) ==
+  LET k == KK(dE, dR, dF, dC) IN
   CASE e.ev = "Submit"       -> StepSubmit(k, cs, e.batch)
     [] e.ev = "AddPilots"    -> StepAdd(k, cs, e.add)
-    [] e.ev = "RemovePilots" -> StepRemove(k, cs, SeqSet(e.pids))
+    [] e.ev = "RemovePilots" -> StepRemove(k, cs, e.pids)
     [] e.ev = "PilotState"   -> StepPState(k, cs, e.p, e.s)
     [] e.ev = "TaskStates"   -> StepTStates(k, cs, e.batch, bound)
     [] OTHER                 -> [cs |-> cs, fwd |-> <<>>, ex |-> FALSE]
@@ -80,25 +85,31 @@ Step ==
          P     == IF e.ev = "AddPilots" THEN SeqSet(AddPids(e.add)) ELSE {}
          \* the driver respects the task manager's guards
          input == CASE e.ev = "Submit"       -> \A t \in B : tst[t] = "new"
-                    [] e.ev = "AddPilots"    -> \A p \in P : cs.role[p] # "added"
-                    [] e.ev = "RemovePilots" -> \A p \in SeqSet(e.pids) : cs.role[p] = "added"
+                    [] e.ev = "AddPilots"    -> \A p \in P : grole[p] # "added"
+                    [] e.ev = "RemovePilots" -> \A p \in SeqSet(e.pids) : grole[p] = "added"
                     [] e.ev = "TaskStates"   -> \A t \in B : tst[t] = "fwd"
                     [] OTHER                 -> TRUE
-         model == IF e.ev = "AddPilots" /\ AddRaises(cs, e.add) THEN TRUE
-                  ELSE \E dE \in BOOLEAN, dR \in BOOLEAN :
-                          LET x == Expect(e, dE, dR)
+         model == \E dE \in BOOLEAN, dR \in BOOLEAN, dF \in BOOLEAN, dC \in BOOLEAN :
+                          LET x == Expect(e, dE, dR, dF, dC)
                           IN  x.cs = lcs /\ x.fwd = lfwd /\ x.ex = lex
+         \* ---- role as commanded, furthest state ever notified or added --------
+         role2 == [p \in PS |-> IF p \in P THEN "added"
+                                ELSE IF e.ev = "RemovePilots" /\ p \in SeqSet(e.pids) THEN "removed"
+                                ELSE grole[p]]
+         st2   == [p \in PS |-> IF p \in P THEN Furthest(gst[p], AddState(e.add, p))
+                                ELSE IF e.ev = "PilotState" /\ p = e.p THEN Furthest(gst[p], e.s)
+                                ELSE gst[p]]
          \* ---- ghosts, as in TmgrSched!Apply ---------------------------------
          tst1  == [t \in TS |-> IF t \in B THEN (IF e.ev = "Submit" THEN "sub" ELSE "fin") ELSE tst[t]]
          gpre  == [p \in PS |-> IF p \in P THEN {} ELSE gset[p] \ (IF e.ev = "TaskStates" THEN B ELSE {})]
          fw(t) == CountFwd(lfwd, t) > 0
-         w     == IF T.policy = "BF" THEN BFWalk(K, lfwd, 1, gpre, lcs.role, lcs.pst)
+         w     == IF T.policy = "BF" THEN BFWalk(K, lfwd, 1, gpre, role2, st2)
                   ELSE [gset |-> gpre, bad |-> FALSE]
          tst2  == [t \in TS |-> IF fw(t) /\ tst1[t] = "sub" THEN "fwd" ELSE tst1[t]]
          bnd2  == [t \in TS |-> IF fw(t) THEN LastPilot(lfwd, t) ELSE bound[t]]
-         added == {p \in PS : lcs.role[p] = "added"}
-         elig  == IF T.policy = "RR" THEN EligibleRR(lcs.role)
-                  ELSE EligibleBF(K, lcs.role, lcs.pst, w.gset)
+         added == {p \in PS : role2[p] = "added"}
+         elig  == IF T.policy = "RR" THEN EligibleRR(role2)
+                  ELSE EligibleBF(K, role2, st2, w.gset)
          \* ---- property clauses ------------------------------------------------
          c12   ==
               \* forwarded at most once ...
@@ -106,15 +117,15 @@ Step ==
               \* ... and forwarded whenever an eligible pilot exists (callbacks are
               \* synchronous: every event boundary is a quiescent point)
          \cup UNION {E(tst2[t] = "sub" =>
-                         IF T.named[t] # "none" THEN lcs.role[T.named[t]] = "none" ELSE ~elig,
+                         IF T.named[t] # "none" THEN role2[T.named[t]] = "none" ELSE ~elig,
                        "C12.ForwardOnceMissing") : t \in TS}
          \cup UNION {E(T.named[lfwd[i][1]] # "none" => lfwd[i][2] = T.named[lfwd[i][1]],
                        "C12.NamedGoesToNamed") : i \in 1 .. Len(lfwd)}
               \* a named task waits until its pilot is added
-         \cup UNION {E(T.named[lfwd[i][1]] # "none" => lcs.role[lfwd[i][2]] # "none",
+         \cup UNION {E(T.named[lfwd[i][1]] # "none" => role2[lfwd[i][2]] # "none",
                        "C12.NamedBeforeAdded") : i \in 1 .. Len(lfwd)}
               \* any other task goes to a pilot which is added at that time
-         \cup UNION {E(T.named[lfwd[i][1]] = "none" => lcs.role[lfwd[i][2]] = "added",
+         \cup UNION {E(T.named[lfwd[i][1]] = "none" => role2[lfwd[i][2]] = "added",
                        "C12.OnlyAdded") : i \in 1 .. Len(lfwd)}
          \cup UNION {E(e.fwd[i].sbx = "ok", "C12.SandboxOfBoundPilot") : i \in 1 .. Len(lfwd)}
               \* tasks wait while they cannot be bound: not failed, not lost, not twice
@@ -137,6 +148,7 @@ Step ==
      /\ bound' = bnd2
      /\ fwdCount' = [t \in TS |-> fwdCount[t] + CountFwd(lfwd, t)]
      /\ gset' = w.gset
+     /\ grole' = role2 /\ gst' = st2
      /\ errs' = errs \cup c12
                      \cup E(known, "M.UnknownEvent")
                      \cup E(input, "M.BadInput")
@@ -150,7 +162,7 @@ Finish ==
   /\ ~fin /\ l > Len(Ev)
   /\ fin' = TRUE
   /\ PrintT(<<"RESULT", T.tid, errs>>)
-  /\ UNCHANGED <<tid, l, cs, tst, bound, fwdCount, gset, errs>>
+  /\ UNCHANGED <<tid, l, cs, tst, bound, fwdCount, gset, grole, gst, errs>>
 
 Next == Step \/ Finish
 Spec == Init /\ [][Next]_vars
